@@ -18,7 +18,7 @@ OBLIGATIONS = [
        bounds="4 tree shapes (binary, nested, ternary, single-child), label lengths 1..2 (thorough ..3) with EVERY printable ASCII character except the five the writer rejects, labels distinct; with and without distances: parse(write(tree, labels), labels) has the same shape, leaf indices and branch lengths; a ValueError of the writer counts as refusal"),
     SX("sx_trees", "sx_c19", "ob_trees", cls="E", quick=300, thorough=900, parts={"quick": 4, "thorough": 8},
        functions=[P + "tree.pyx:Tree/TreeNode (compiled): to_newick, from_newick, copy, get_distance, distance_to, lowest_common_ancestor, __eq__/__hash__, as_binary"],
-       bounds="8 tree shapes (binary, multifurcating, single-child nodes and chains of them, 2..5 leaves, dyadic branch lengths) x 6 (thorough 24) leaf labelings: Newick round trip with / without labels, without distances, with whitespace; copy; binary form; all leaf-to-leaf distances vs explicit path sums; LCA"),
+       bounds="10 tree shapes (binary, multifurcating, single-child nodes and chains of them - also directly below multifurcations, 2..5 leaves, dyadic branch lengths) x 6 (thorough 24) leaf labelings: Newick round trip with / without labels, without distances, with whitespace; copy; binary form; all leaf-to-leaf distances vs explicit path sums; LCA"),
     SX("sx_clustering", "sx_c19", "ob_clustering", cls="E", quick=300, thorough=1200, parts={"quick": 4, "thorough": 5},
        functions=[P + "upgma.pyx:upgma (compiled)", P + "nj.pyx:neighbor_joining (compiled)"],
        bounds="UPGMA: every symmetric matrix over n = 2..4 (thorough 5) taxa with entries from a 3-5 value menu (ties included): every index one leaf, ultrametric, merge height = half average linkage; NJ: additive matrices of 3 tree shapes x 8 (24) labelings, with duplicated taxa (zero distances) and the all-zero matrix: every path length reproduced"),
